@@ -134,7 +134,13 @@ func positionOnlyUse(w *World, v ssa.Value, depth int) bool {
 		case ssa.CallInstruction:
 			f2 := x.Common().StaticCallee()
 			if f2 == nil {
-				return false
+				// the position is handed to a function value (a callback parameter, a closure kept in a variable or a record member):
+				// it is judged where it arrives - in every function the value can be bound to, the parameter that receives it must
+				// again be used as a position only
+				if x.Common().IsInvoke() || !positionOnlyThroughFuncValue(w, x, v, depth) {
+					return false
+				}
+				continue
 			}
 			for i, a := range x.Common().Args {
 				if a != v {
@@ -146,6 +152,38 @@ func positionOnlyUse(w *World, v ssa.Value, depth int) bool {
 			}
 		default:
 			return false
+		}
+	}
+	return true
+}
+
+// positionOnlyThroughFuncValue: call runs a function value and passes v to it. Every function the value can be (closure literals,
+// named functions, what the call sites of the enclosing function bind to a function-typed parameter, what is stored into the
+// variable or member it is read from) must have a body in the repo and must use the parameter that receives v as a position only.
+// No target known, a target without a body, or a variadic slot: not understood, so not allowed.
+func positionOnlyThroughFuncValue(w *World, call ssa.CallInstruction, v ssa.Value, depth int) bool {
+	targets := closureTargets(call.Common().Value, 0, map[ssa.Value]bool{})
+	if len(targets) == 0 {
+		return false
+	}
+	args := call.Common().Args
+	for _, t := range targets {
+		t = unwrapBound(t)
+		if t == nil || t.Blocks == nil || !w.isSubjectFunc(t) || t.Signature.Variadic() {
+			return false
+		}
+		// a method behind a method value has its receiver in front of the arguments of the call
+		off := len(t.Params) - len(args)
+		if off < 0 {
+			return false
+		}
+		for i, a := range args {
+			if a != v {
+				continue
+			}
+			if !positionOnlyUse(w, t.Params[i+off], depth+1) {
+				return false
+			}
 		}
 	}
 	return true
